@@ -169,7 +169,7 @@ func runC17(c *Ctx) {
 	}
 	c.Rep.Cases = len(all)
 	c.Rep.Cases += c17ComponentStage(c, ca)
-	c.Rep.Rule = "CRLs with 20 000 / 200 000 (thorough: 2 000 000) fixed-size entries streamed to disk, loaded by a real validator with disk storage in a child process from a configured file or an HTTP origin, DER and PEM; the child samples runtime.MemStats.HeapAlloc every 10 ms with a forced GC every 100 ms; oracle: the peak live heap grows by less than a quarter of the growth of the input (and less than 24 MiB is always tolerated); the listed last entry must be revoked; plus, on their own and with a 1 000 000-entry (thorough: 4 000 000) CRL: the URL loader downloading into a file, and the streaming reader on DER and on PEM with a consumer that keeps nothing — heap sampled every millisecond must stay below a quarter of the input"
+	c.Rep.Rule = "CRLs with 20 000 / 200 000 (thorough: 2 000 000) fixed-size entries streamed to disk, loaded by a real validator with disk storage in a child process from a configured file or an HTTP origin, DER and PEM; the child samples runtime.MemStats.HeapAlloc every 10 ms with a forced GC every 100 ms; oracle: the peak live heap grows by less than a quarter of the growth of the input (and less than 24 MiB is always tolerated); the listed last entry must be revoked; plus, on their own and with a 1 000 000-entry (thorough: 4 000 000) CRL: the URL loader downloading into a file, the file loader copying a configured file, and the streaming reader on DER and on PEM with a consumer that keeps nothing — heap sampled every millisecond must stay below a quarter of the input"
 }
 
 // child: --work "path|source|caPEM|leafDER|caDER"
